@@ -267,6 +267,9 @@ class Recorder:
             return np.array(p, dtype=np.int64), dict(enc=enc, vec=[int(x) for x in p])
         if enc == "obj":
             return make_action_object(p), dict(enc=enc, obj=p)
+        if enc == "realobj":
+            # an Action object that already exists (e.g. a member of ANOTHER environment's action list): passed as it is
+            return p, dict(enc="obj", obj=project_action(p))
         raise ValueError(enc)
 
     # ----------------------------------------------------------------- events
@@ -577,6 +580,14 @@ class Recorder:
         env = self.envs[eid]
         cur = sha(env.current_state.tensor)
         out = dict(ev="initstate", env=eid)
+        # other read-only helpers of the public API: whatever they compute, they are queries
+        for helper in (lambda: env.get_minimum_hops(), lambda: env.get_score_upper_bound(),
+                       lambda: env.network.get_subnet_depths(), lambda: env.network.get_total_sensitive_host_value(),
+                       lambda: env.network.get_total_discovery_value(), lambda: env.get_action_mask()):
+            try:
+                helper()
+            except Exception:      # noqa
+                pass
         try:
             with self.trip.scripted(0.5):
                 s0 = env.generate_initial_state()
